@@ -1,5 +1,5 @@
 (* C17 — theorems (statements are the *_stmt definitions of Proofs.v / ProofsAlloc.v). *)
-From C17 Require Import Model Proofs ProofsAlloc.
+From C17 Require Import Model Proofs ProofsAlloc ProofsFrame.
 
 Theorem Inv_init : Inv_init_stmt.
 Proof. exact Inv_init_proof. Qed.
@@ -32,3 +32,8 @@ Print Assumptions No_leaked_block.
 Theorem Search_binary_smallest_class : Search_binary_stmt.
 Proof. exact Search_binary_proof. Qed.
 Print Assumptions Search_binary_smallest_class.
+
+(* full statement: ProofsFrame.Frame_full_stmt (push_back and copy included) *)
+Theorem Frame_others_unchanged_partial : Frame_stmt.
+Proof. exact Frame_proof. Qed.
+Print Assumptions Frame_others_unchanged_partial.
